@@ -560,6 +560,12 @@ def c18_check_case(case, envs):
         if run.cls == "hang":
             problems.append(("hang", ei, run.outcome.detail))
             continue
+        if ei == 0 and not run.success and run.outcome.detail == "SystemExit(2)" \
+                and "usage:" in run.outcome.stderr and not run.out:
+            # the option parser itself refuses this combination: the property quantifies over
+            # "the widths, heights and skips the option parser accepts", so this is no case
+            rec["cls"] = "options_rejected"
+            return [], recs, None
         if not run.success:
             problems.append(("not_success", ei, run.outcome.detail))
             continue
